@@ -10,6 +10,7 @@ pub mod c10;
 pub mod c11;
 pub mod c12;
 pub mod c13;
+pub mod c14;
 pub mod c15;
 pub mod c16;
 pub mod c17;
@@ -34,6 +35,7 @@ pub fn instances(prop: &str, tier: &str, seed: u64) -> Vec<String> {
         "C11" => c11::instances(tier),
         "C12" => c12::instances(tier),
         "C13" => c13::instances(tier),
+        "C14" => c14::instances(tier),
         "C15" => c15::instances(tier),
         "C16" => c16::instances(tier),
         "C17" => c17::instances(tier),
@@ -48,6 +50,7 @@ pub fn configure(prop: &str, inst: &str, cfg: &mut Config) {
     match prop {
         "C13" => c13::configure(inst, cfg),
         "C10" => c10::configure(inst, cfg),
+        "C14" => c14::configure(inst, cfg),
         "C08" | "C09" => { cfg.decide_timeout_ms = cfg.decide_timeout_ms.min(1500); }
         _ => {}
     }
@@ -75,6 +78,7 @@ fn body_inner(prop: &str, inst: &str) {
         "C11" => c11::body(inst),
         "C12" => c12::body(inst),
         "C13" => c13::body(inst),
+        "C14" => c14::body(inst),
         "C15" => c15::body(inst),
         "C16" => c16::body(inst),
         "C17" => c17::body(inst),
